@@ -4,12 +4,19 @@ Theorems (lean/CffiVerif/Props/C31.lean) over the model of the comment / #define
 `cparser._preprocess` (lean/CffiVerif/Model/Preprocess.lean): block_comment_is_space,
 line_comment_is_space, line_comment_at_eof_is_space, unclosed_block_is_text,
 no_slash_untouched, define_value_unchanged_by_inline_comment_partial,
-define_value_continuation, multiline_comment_in_define_breaks_value (finding witness).
+define_value_continuation, multiline_comment_in_define_breaks_value (finding witness); comment_regex_shape,
+define_regex_shape, comment_classes, define_classes, rawValue_is_regex_loop, lineOk_is_regex_loop tie the
+transducer to the regular expressions compiled from the source.
 
 Tie to the code:
+  0. translate/c31_regex.py re-reads `_r_comment`, `_r_define`, `_r_line_directive` from cparser.py on every
+     run, parses them with Python's own `re._parser` and compiles them into NFA tables and into the
+     shape of the transducer (Generated/PreprocessRegex.lean); the shape / class-meaning theorems are
+     re-checked against that, and the driver runs the tables (`nfa-strip`, `nfa-defines`, `nfa-linedir`);
   A. the real `_r_comment` substitution, the real `_preprocess` (source text and macros
-     dict) against the model driver on random texts over an alphabet of comment openers /
-     closers, backslashes, newlines and `#define` shapes;
+     dict), `_r_define.finditer` groups and `_r_line_directive` spans against the model driver
+     (hand-written transducer and compiled automata) on random texts over an alphabet of comment
+     openers / closers, backslashes, newlines and `#define` / `#line` shapes;
   B. property oracle on the real implementation (no model involved): random valid cdefs
      (functions, structs, unions, enums, typedefs, globals, #define constants) are decorated
      with comments, white space, continuations and line directives between their tokens; the
@@ -29,7 +36,10 @@ MANIFEST = {
             "continuation removal and strip), a comment inserted outside comments becomes exactly one space plus "
             "the newlines it contained and leaves the rest of the text alone, an unterminated /* stays text, and "
             "a #define value is unchanged by a one-line comment before/after it and by backslash-newline; the model "
-            "is tied to the code by running the real regex substitution and _preprocess against it on random texts, "
+            "is tied to the code by recompiling _r_comment/_r_define/_r_line_directive from cparser.py on every run (Python's own "
+            "re parser -> NFA tables + the shape of the transducer): kernel-checked theorems pin the shape, the meaning of "
+            "every character class and identify the model's scanners with the regex's unit loop; the compiled automata, the "
+            "real regex substitution and _preprocess are run against the model on random texts, "
             "and the property itself is tested on the real parser: random valid cdefs decorated with comments, "
             "white space, continuations and line directives must yield identical declarations, layouts, constants "
             "and generated source.",
@@ -74,18 +84,23 @@ WITNESSES = {
 }
 
 
+def translators(ctx):
+    import os
+    import sys
+    sys.path.insert(0, os.path.join(common.VERIF, "translate"))
+    import c31_regex
+    return [c31_regex.run]
+
+
 def known_or_fail(ctx, case, detail):
-    """ctx.fail, except that inputs of a class of this module that is not (yet) listed in
-    KNOWN_FINDINGS.jsonl are recorded as known hits instead of violations."""
-    listed = set(f["class"] for f in ctx.open_findings)
-    for cls, pred in CLASSES.items():
-        if pred(case):
-            if cls in listed:
-                return ctx.fail(case, detail)
-            ctx.known_hits.setdefault(cls, {"case": case, "detail": detail})
-            ctx.count("known:" + cls)
-            return "known"
-    return ctx.fail(case, detail)
+    """The property fails at `case`; ctx.fail matches it against the classes listed in KNOWN_FINDINGS.jsonl."""
+    r = ctx.fail(case, detail)
+    if r == "known":
+        for cls, pred in CLASSES.items():
+            if pred(case):
+                ctx.count("known:" + cls)
+                break
+    return r
 
 
 def enc(text):
@@ -102,6 +117,8 @@ PIECES = ["/", "*", "//", "/*", "*/", "\\", "\\\n", "\n", "\n", " ", " ", "\t", 
           "#define ", "#define FOO", "# define\tB", "#defined X", "#undef Q", "\n#define K2 7", " #\tdefine  Z9  -3 ",
           "#define 9x", "#define", "\x0c", "\x1c", "\r", "-", "int x", "**/", "/**/", "//\\\n", "\\\\", "\\a"]
 RARE = ["\u00e9", "\u00a0", "\u2028", "\U0001F600", "\ud800", "\x85"]
+LD_PIECES = ["#", "# ", "#line", "line", " 5", "12", "\n", "\n", " ", "\t", "x", "#line 7 \"f.h\"", "# 3 \"a b\"",
+             "lines", "#  line\t9", "5x", "_", "\r", "#define A 1", "\n# 77", "\n#line", "/* c */", "# -1", "#\t\t4 "]
 TRIGGERS = re.compile(r'\.\.\.|"|__stdcall|WINAPI|__cdecl|extern|\[')
 
 
@@ -114,7 +131,7 @@ def gen_text(rng):
     return "".join(out)
 
 
-def part_a(ctx, ntexts):
+def part_a(ctx, ntexts, nnfa):
     from cffi import cparser
     lines, expect = [], []
 
@@ -139,6 +156,15 @@ def part_a(ctx, ntexts):
         lines.append("strip " + enc(text))
         expect.append(("strip", case, stripped))
         ctx.count("A:strip")
+        nfa = i < len(fixed) + nnfa            # the (interpreted) automata are slower: a prefix of the texts
+        if nfa:
+            lines.append("nfa-strip " + enc(text))
+            expect.append(("strip", case, stripped))          # the automaton compiled from the source's regex
+            ctx.count("A:nfa-strip")
+        if nfa and all(ord(c) < 128 for c in stripped):
+            lines.append("nfa-defines " + enc(stripped))
+            expect.append(("nfa-defines", case, [list(m.groups()) for m in cparser._r_define.finditer(stripped)]))
+            ctx.count("A:nfa-defines")
         if "#" not in text and not TRIGGERS.search(text):
             # no other stage of _preprocess applies: its output must be the stripped text
             with warnings.catch_warnings():
@@ -154,9 +180,28 @@ def part_a(ctx, ntexts):
             lines.append("macros " + enc(text))
             expect.append(("macros", case, list(macros.items())))
             ctx.count("A:macros" if macros else "A:macros-none")
+    for _ in range(nnfa // 2):
+        text = "".join(ctx.rng.choice(LD_PIECES) for _ in range(ctx.rng.randint(0, 12)))
+        case = {"part": "A", "text": text, "regex": "_r_line_directive"}
+        ctx.case(text if "#" in text else None)
+        ctx.count("A:nfa-linedir")
+        lines.append("nfa-linedir " + enc(text))
+        expect.append(("nfa-linedir", case, [[m.start(), m.end()] for m in cparser._r_line_directive.finditer(text)]))
     out = ctx.driver(lines)
     for o, (kind, case, impl) in zip(out, expect):
-        if kind == "strip":
+        if kind == "nfa-defines":
+            got = None
+            if o.startswith("ok"):
+                got = [[dec(x) for x in w.split("=")] for w in o.split(" ")[1:]]
+            if got != impl:
+                ctx.disagree(case, impl, o[:200], "_r_define.finditer groups: re vs the automaton compiled from the pattern")
+        elif kind == "nfa-linedir":
+            got = None
+            if o.startswith("ok"):
+                got = [[int(x) for x in w.split(":")] for w in o.split(" ")[1:]]
+            if got != impl:
+                ctx.disagree(case, impl, o[:200], "_r_line_directive spans: re vs the automaton compiled from the pattern")
+        elif kind == "strip":
             if not o.startswith("ok ") or dec(o[3:]) != impl:
                 ctx.disagree(case, impl, o, "comment stripping: real regex vs model")
         else:
@@ -566,7 +611,7 @@ def part_b(ctx, nbases, nvariants):
 # ------------------------------------------------------------------ entry points
 
 def correspond(ctx):
-    part_a(ctx, ctx.n(1500, 10000))
+    part_a(ctx, ctx.n(1500, 10000), ctx.n(300, 2500))
     part_b(ctx, ctx.n(60, 600), ctx.n(10, 12))
 
 
